@@ -138,190 +138,77 @@ func gen(repo string) (map[string]string, error) {
 	if err != nil {
 		return nil, err
 	}
-	// BuildCNIArgs: for k, v := range args { entries = append(entries, fmt.Sprintf("%s=%s", k, v)) }; strings.Join(entries, ";")
+	// BuildCNIArgs(m) = Join([k + <kv> + v …], <entry>) — read off the normal form (shapes.go)
 	bf, err := cni.Fn("", "BuildCNIArgs")
 	if err != nil {
 		return nil, err
 	}
-	var rng *ast.RangeStmt
-	for _, s := range bf.Body.List {
-		if r, ok := s.(*ast.RangeStmt); ok {
-			if rng != nil {
-				return nil, fmt.Errorf("BuildCNIArgs: more than one range loop")
-			}
-			rng = r
-		}
-	}
-	if rng == nil || rng.Key == nil || rng.Value == nil || len(bf.Type.Params.List) != 1 ||
-		cni.Src(rng.X) != bf.Type.Params.List[0].Names[0].Name {
-		return nil, fmt.Errorf("BuildCNIArgs: expected `for k, v := range <param>`")
-	}
-	kName, vName := cni.Src(rng.Key), cni.Src(rng.Value)
-	sp := calls(cni, rng.Body, "fmt.Sprintf")
-	if len(sp) != 1 || len(sp[0].Args) != 3 || cni.Src(sp[0].Args[1]) != kName || cni.Src(sp[0].Args[2]) != vName {
-		return nil, fmt.Errorf("BuildCNIArgs: expected exactly one fmt.Sprintf(format, %s, %s) in the loop", kName, vName)
-	}
-	format, ok := strLit(sp[0].Args[0])
-	if !ok || !strings.HasPrefix(format, "%s") || !strings.HasSuffix(format, "%s") || len(format) < 5 ||
-		strings.Contains(format[2:len(format)-2], "%") {
-		return nil, fmt.Errorf("BuildCNIArgs: entry format %q is not \"%%s<sep>%%s\"", format)
-	}
-	buildKv, err := oneChar("BuildCNIArgs entry format", format[2:len(format)-2])
+	bkv, bentry, err := buildShape(cni.Fset, bf)
 	if err != nil {
 		return nil, err
 	}
-	jn := calls(cni, bf.Body, "strings.Join")
-	if len(jn) != 1 || len(jn[0].Args) != 2 {
-		return nil, fmt.Errorf("BuildCNIArgs: expected exactly one strings.Join(entries, sep)")
-	}
-	js, ok := strLit(jn[0].Args[1])
-	if !ok {
-		return nil, fmt.Errorf("BuildCNIArgs: join separator is not a string literal")
-	}
-	buildEntry, err := oneChar("BuildCNIArgs join separator", js)
+	buildKv, err := oneChar("BuildCNIArgs key/value separator", bkv)
 	if err != nil {
 		return nil, err
 	}
-	if _, ok := bf.Body.List[len(bf.Body.List)-1].(*ast.ReturnStmt); !ok || !cni.ContainsCall(bf.Body.List[len(bf.Body.List)-1], "strings.Join") {
-		return nil, fmt.Errorf("BuildCNIArgs: does not return the strings.Join result")
+	buildEntry, err := oneChar("BuildCNIArgs join separator", bentry)
+	if err != nil {
+		return nil, err
 	}
-	def("buildKvSep", "Char", leanChar(buildKv), fmt.Sprintf("BuildCNIArgs: entry format %q", format))
-	def("buildEntrySep", "Char", leanChar(buildEntry), fmt.Sprintf("BuildCNIArgs: strings.Join(entries, %q)", js))
+	def("buildKvSep", "Char", leanChar(buildKv), fmt.Sprintf("BuildCNIArgs: every entry is key + %q + value", bkv))
+	def("buildEntrySep", "Char", leanChar(buildEntry), fmt.Sprintf("BuildCNIArgs: strings.Join(entries, %q)", bentry))
 
 	// ParseCNIArgs
 	pf, err := cni.Fn("", "ParseCNIArgs")
 	if err != nil {
 		return nil, err
 	}
-	spl := calls(cni, pf.Body, "strings.Split")
-	if len(spl) != 1 || len(spl[0].Args) != 2 {
-		return nil, fmt.Errorf("ParseCNIArgs: expected exactly one strings.Split")
-	}
-	ps, ok := strLit(spl[0].Args[1])
-	if !ok {
-		return nil, fmt.Errorf("ParseCNIArgs: split separator is not a literal")
+	ps, pk, skip, assign, err := parseShape(cni.Fset, pf)
+	if err != nil {
+		return nil, err
 	}
 	parseEntry, err := oneChar("ParseCNIArgs split separator", ps)
 	if err != nil {
 		return nil, err
 	}
-	spn := calls(cni, pf.Body, "strings.SplitN")
-	if len(spn) != 1 || len(spn[0].Args) != 3 {
-		return nil, fmt.Errorf("ParseCNIArgs: expected exactly one strings.SplitN")
-	}
-	pk, ok := strLit(spn[0].Args[1])
-	if !ok {
-		return nil, fmt.Errorf("ParseCNIArgs: SplitN separator is not a literal")
-	}
 	parseKv, err := oneChar("ParseCNIArgs SplitN separator", pk)
 	if err != nil {
 		return nil, err
 	}
-	if cni.Src(spn[0].Args[2]) != "2" {
-		return nil, fmt.Errorf("ParseCNIArgs: SplitN count is %s, expected 2", cni.Src(spn[0].Args[2]))
-	}
 	def("parseEntrySep", "Char", leanChar(parseEntry), fmt.Sprintf("ParseCNIArgs: strings.Split(args, %q)", ps))
 	def("parseKvSep", "Char", leanChar(parseKv), fmt.Sprintf("ParseCNIArgs: strings.SplitN(kv, %q, 2)", pk))
-	// loop body shape: if len(part) != 2 { continue }; kvMap[TrimSpace(part[0])] = TrimSpace(part[1])
-	var prng *ast.RangeStmt
-	for _, s := range pf.Body.List {
-		if r, ok := s.(*ast.RangeStmt); ok {
-			prng = r
-		}
-	}
-	partName := ""
-	if prng == nil || len(prng.Body.List) != 3 {
-		prng = &ast.RangeStmt{Body: &ast.BlockStmt{List: []ast.Stmt{&ast.EmptyStmt{}, &ast.EmptyStmt{}, &ast.EmptyStmt{}}}}
-	}
-	if as, ok := prng.Body.List[0].(*ast.AssignStmt); ok && len(as.Lhs) == 1 && cni.ContainsCall(as, "strings.SplitN") {
-		partName = cni.Src(as.Lhs[0])
-	}
-	skip := false
-	if ifs, ok := prng.Body.List[1].(*ast.IfStmt); ok && ifs.Else == nil && ifs.Init == nil &&
-		cni.Src(ifs.Cond) == "len("+partName+") != 2" && len(ifs.Body.List) == 1 && cni.Src(ifs.Body.List[0]) == "continue" {
-		skip = true
-	}
-	assign := false
-	if as, ok := prng.Body.List[2].(*ast.AssignStmt); ok && len(as.Lhs) == 1 && len(as.Rhs) == 1 && as.Tok == token.ASSIGN {
-		l, r := cni.Src(as.Lhs[0]), cni.Src(as.Rhs[0])
-		if strings.HasSuffix(l, "[strings.TrimSpace("+partName+"[0])]") && r == "strings.TrimSpace("+partName+"[1])" {
-			assign = true
-		}
-	}
-	fact("parseSkipsEntryWithoutKv", partName != "" && skip, "ParseCNIArgs: `if len(part) != 2 { continue }`",
-		"second statement of the loop is not that skip")
-	fact("parseTrimsKeyAndValue", partName != "" && assign,
+	fact("parseSkipsEntryWithoutKv", skip, "ParseCNIArgs: a piece is used only if `len(part) == 2` (`if len(part) != 2 { continue }`)",
+		"the map assignment is not guarded by len(part) == 2")
+	fact("parseTrimsKeyAndValue", assign,
 		"ParseCNIArgs: `kvMap[strings.TrimSpace(part[0])] = strings.TrimSpace(part[1])` (later entries overwrite)",
-		"third statement of the loop is not that assignment")
+		"the loop's effect is not that assignment")
 
-	// CmdAdd accumulation: cmdArgs.Args = strings.TrimRight(fmt.Sprintf("%s;%s", cmdArgs.Args, BuildCNIArgs(networkInfo.Args)), ";")
+	// CmdAdd accumulation: cmdArgs.Args = TrimRight(cmdArgs.Args + <sep> + BuildCNIArgs(networkInfo.Args), <cutset>), then DelegateAdd
 	af, err := cni.Fn("", "CmdAdd")
 	if err != nil {
 		return nil, err
 	}
-	var accStmt *ast.AssignStmt
-	var accLoop *ast.RangeStmt
-	ast.Inspect(af.Body, func(x ast.Node) bool {
-		if r, ok := x.(*ast.RangeStmt); ok && accLoop == nil {
-			for _, s := range r.Body.List {
-				if as, ok := s.(*ast.AssignStmt); ok && len(as.Lhs) == 1 && cni.Src(as.Lhs[0]) == "cmdArgs.Args" {
-					accStmt, accLoop = as, r
-				}
-			}
-		}
-		return true
-	})
-	if accStmt == nil || cni.Src(accLoop.X) != "networkInfos" {
-		return nil, fmt.Errorf("CmdAdd: no `cmdArgs.Args = …` statement inside `range networkInfos`")
-	}
-	tr, ok := accStmt.Rhs[0].(*ast.CallExpr)
-	if !ok || cni.Src(tr.Fun) != "strings.TrimRight" || len(tr.Args) != 2 {
-		return nil, fmt.Errorf("CmdAdd: accumulation is not strings.TrimRight(…, cutset)")
-	}
-	cut, ok := strLit(tr.Args[1])
-	if !ok {
-		return nil, fmt.Errorf("CmdAdd: TrimRight cutset is not a literal")
-	}
-	cutc, err := oneChar("CmdAdd TrimRight cutset", cut)
+	asep, acut, err := accShape(cni.Fset, af)
 	if err != nil {
 		return nil, err
 	}
-	in, ok := tr.Args[0].(*ast.CallExpr)
-	if !ok || cni.Src(in.Fun) != "fmt.Sprintf" || len(in.Args) != 3 || cni.Src(in.Args[1]) != "cmdArgs.Args" ||
-		cni.Src(in.Args[2]) != "BuildCNIArgs("+cni.Src(accLoop.Value)+".Args)" {
-		return nil, fmt.Errorf("CmdAdd: accumulation is not fmt.Sprintf(f, cmdArgs.Args, BuildCNIArgs(<elem>.Args)): %s", cni.Src(accStmt))
-	}
-	accFormat, ok := strLit(in.Args[0])
-	if !ok || !strings.HasPrefix(accFormat, "%s") || !strings.HasSuffix(accFormat, "%s") || len(accFormat) < 5 ||
-		strings.Contains(accFormat[2:len(accFormat)-2], "%") {
-		return nil, fmt.Errorf("CmdAdd: accumulation format %q is not \"%%s<sep>%%s\"", accFormat)
-	}
-	accSep, err := oneChar("CmdAdd accumulation format", accFormat[2:len(accFormat)-2])
+	accSep, err := oneChar("CmdAdd accumulation separator", asep)
 	if err != nil {
 		return nil, err
 	}
-	// the accumulated string must be what DelegateAdd hands to the plugin: DelegateAdd(networkInfo.Conf, cmdArgs, …) after it
-	accIdx, delIdx := -1, -1
-	for i, s := range accLoop.Body.List {
-		if s == ast.Stmt(accStmt) {
-			accIdx = i
-		}
-		if delIdx < 0 && cni.ContainsCall(s, "DelegateAdd") {
-			delIdx = i
-		}
+	cutc, err := oneChar("CmdAdd TrimRight cutset", acut)
+	if err != nil {
+		return nil, err
 	}
-	if accIdx < 0 || delIdx < accIdx {
-		return nil, fmt.Errorf("CmdAdd: DelegateAdd is not called after the argument accumulation")
-	}
-	def("accSep", "Char", leanChar(accSep), fmt.Sprintf("CmdAdd: cmdArgs.Args = TrimRight(Sprintf(%q, cmdArgs.Args, BuildCNIArgs(networkInfo.Args)), %q), before DelegateAdd", accFormat, cut))
+	def("accSep", "Char", leanChar(accSep), fmt.Sprintf("CmdAdd: cmdArgs.Args = TrimRight(cmdArgs.Args + %q + BuildCNIArgs(networkInfo.Args), %q), before DelegateAdd", asep, acut))
 	def("accTrimChar", "Char", leanChar(cutc), "CmdAdd: TrimRight cutset")
 	// DelegateAdd passes args.Args as PluginArgsStr
 	df, err := cni.Fn("", "DelegateAdd")
 	if err != nil {
 		return nil, err
 	}
-	fact("delegateAddPassesArgsVerbatim", strings.Contains(strings.Join(strings.Fields(cni.Src(df.Body)), " "), "PluginArgsStr: args.Args,"),
-		"DelegateAdd: invoke.Args{PluginArgsStr: args.Args}", "PluginArgsStr is no longer args.Args")
+	fact("delegateAddPassesArgsVerbatim", effectContains(cni.Fset, df, "return invoke.ExecPluginWithResult(", "PluginArgsStr: $1.Args,"),
+		"DelegateAdd: the plugin is executed with invoke.Args{PluginArgsStr: args.Args}", "PluginArgsStr is no longer args.Args")
 
 	// ---------------------------------------------------------------- constant.go
 	cst, err := fg.ParseFile(repo, "pkg/api/galaxy/constant/constant.go")
@@ -392,9 +279,9 @@ func gen(repo string) (map[string]string, error) {
 	if err != nil {
 		return nil, err
 	}
-	msrc := strings.Join(strings.Fields(cst.Src(mf.Body)), " ")
-	fact("marshalCniArgsShape", strings.Contains(msrc, "CniArgs{Common: CommonCniArgs{ IPInfos: ipInfos, }}") && strings.Contains(msrc, "json.Marshal(cniArgs)"),
-		"MarshalCniArgs = json.Marshal(CniArgs{Common: CommonCniArgs{IPInfos: ipInfos}})", "body is now "+msrc)
+	fact("marshalCniArgsShape", effectContains(cst.Fset, mf, "$1 = CniArgs{Common: CommonCniArgs{IPInfos: $0}}") &&
+		effectContains(cst.Fset, mf, "return string(json.Marshal($1)#0), nil"),
+		"MarshalCniArgs = json.Marshal(CniArgs{Common: CommonCniArgs{IPInfos: ipInfos}})", "normal form changed")
 
 	// ---------------------------------------------------------------- server.go
 	srv, err := fg.ParseFile(repo, "pkg/galaxy/server.go")
@@ -405,8 +292,8 @@ func gen(repo string) (map[string]string, error) {
 	if err != nil {
 		return nil, err
 	}
-	if !strings.Contains(srv.Src(pe.Body), "pod.Annotations[constant.ExtendedCNIArgsAnnotation]") {
-		return nil, fmt.Errorf("parseExtendedCNIArgs no longer reads pod.Annotations[constant.ExtendedCNIArgsAnnotation]")
+	if !effectContains(srv.Fset, pe, "call json.Unmarshal([]byte($0.Annotations[constant.ExtendedCNIArgsAnnotation]), &$1)") {
+		return nil, fmt.Errorf("parseExtendedCNIArgs no longer decodes pod.Annotations[constant.ExtendedCNIArgsAnnotation]")
 	}
 	var daemonTag string
 	ast.Inspect(pe.Body, func(x ast.Node) bool {
@@ -421,7 +308,7 @@ func gen(repo string) (map[string]string, error) {
 	if daemonTag == "" {
 		return nil, fmt.Errorf("parseExtendedCNIArgs: anonymous struct { Common map[string]json.RawMessage `json:…` } not found")
 	}
-	if !strings.Contains(srv.Src(pe.Body), "return cniArgs.Common, nil") {
+	if !effectContains(srv.Fset, pe, "return $1.Common, nil") {
 		return nil, fmt.Errorf("parseExtendedCNIArgs no longer returns cniArgs.Common")
 	}
 	def("tagCommonDaemon", "String", fg.LeanStr(daemonTag), "json name galaxy (daemon) reads the common args from: map[string]json.RawMessage, members kept as raw text")
@@ -429,31 +316,15 @@ func gen(repo string) (map[string]string, error) {
 	if err != nil {
 		return nil, err
 	}
-	copies := false
-	ast.Inspect(rn.Body, func(x ast.Node) bool {
-		outer, ok := x.(*ast.RangeStmt)
-		if !ok || srv.Src(outer.X) != "networkInfos" || outer.Key == nil || len(outer.Body.List) != 1 {
-			return true
-		}
-		inner, ok := outer.Body.List[0].(*ast.RangeStmt)
-		if !ok || srv.Src(inner.X) != "extendedCNIArgs" || len(inner.Body.List) != 1 {
-			return true
-		}
-		want := fmt.Sprintf("networkInfos[%s].Args[%s] = string(%s)", srv.Src(outer.Key), srv.Src(inner.Key), srv.Src(inner.Value))
-		if srv.Src(inner.Body.List[0]) == want {
-			copies = true
-		}
-		return true
-	})
+	copies, whyCopies := resolveCopies(srv.Fset, rn)
 	fact("resolveCopiesCommonToEveryNetwork", copies, "resolveNetworks copies every common.* member (raw text) into every network's Args",
-		"`for i := range networkInfos { for k, v := range extendedCNIArgs { networkInfos[i].Args[k] = string(v) } }`")
+		whyCopies)
 	ca, err := srv.Fn("Galaxy", "cmdAdd")
 	if err != nil {
 		return nil, err
 	}
-	fact("cmdAddDelegatesResolvedNetworks", strings.Contains(srv.Src(ca.Body), "g.resolveNetworks(req, pod)") &&
-		strings.Contains(srv.Src(ca.Body), "cniutil.CmdAdd(req.CmdArgs, networkInfos)"),
-		"Galaxy.cmdAdd = resolveNetworks, then cniutil.CmdAdd(req.CmdArgs, networkInfos)", "cmdAdd body changed")
+	fact("cmdAddDelegatesResolvedNetworks", effectContains(srv.Fset, ca, "return cniutil.CmdAdd($0.CmdArgs, recv.resolveNetworks($0, $1)#0)"),
+		"Galaxy.cmdAdd = resolveNetworks, then cniutil.CmdAdd(req.CmdArgs, networkInfos)", "cmdAdd normal form changed")
 
 	// ---------------------------------------------------------------- cni/ipam/ipam.go
 	ipm, err := fg.ParseFile(repo, "cni/ipam/ipam.go")
@@ -464,25 +335,17 @@ func gen(repo string) (map[string]string, error) {
 	if err != nil {
 		return nil, err
 	}
-	asrc := strings.Join(strings.Fields(ipm.Src(al.Body)), " ")
-	allocOK, missing := true, ""
-	for _, need := range []string{"cniutil.ParseCNIArgs(args.Args)", "kvMap[constant.IPInfosKey]", "var ipInfos []constant.IPInfo",
-		"json.Unmarshal([]byte(ipInfoStr), &ipInfos)", "cniutil.IPInfoToResult(&ipInfos[j])", "vlanIDs = append(vlanIDs, ipInfos[j].Vlan)"} {
-		if !strings.Contains(asrc, need) {
-			allocOK, missing = false, need
-		}
-	}
+	allocOK, allocWhy := allocateShape(ipm.Fset, al)
 	fact("allocateDecodesIPInfosKey", allocOK,
 		"cni/ipam.Allocate: ParseCNIArgs(args.Args)[constant.IPInfosKey] -> json.Unmarshal into []constant.IPInfo -> one result + vlan per element, in order",
-		"expected `"+missing+"`")
+		allocWhy)
 	// IPInfoToResult keeps IP and Gateway
 	itr, err := cni.Fn("", "IPInfoToResult")
 	if err != nil {
 		return nil, err
 	}
-	isrc := strings.Join(strings.Fields(cni.Src(itr.Body)), " ")
-	fact("ipInfoToResultCopiesIPAndGateway", strings.Contains(isrc, "net.IPNet(*ipInfo.IP)") && strings.Contains(isrc, "Gateway: ipInfo.Gateway"),
-		"cniutil.IPInfoToResult: IP4.IP = *ipInfo.IP, IP4.Gateway = ipInfo.Gateway", "body changed")
+	fact("ipInfoToResultCopiesIPAndGateway", effectContains(cni.Fset, itr, "return &t020.Result{IP4: &t020.IPConfig{IP: net.IPNet(*$0.IP), Gateway: $0.Gateway,"),
+		"cniutil.IPInfoToResult: IP4.IP = *ipInfo.IP, IP4.Gateway = ipInfo.Gateway", "normal form changed")
 
 	// ---------------------------------------------------------------- nets/ip.go
 	nt, err := fg.ParseFile(repo, "pkg/utils/nets/ip.go")
@@ -497,12 +360,12 @@ func gen(repo string) (map[string]string, error) {
 	if err != nil {
 		return nil, err
 	}
-	usrc := strings.Join(strings.Fields(nt.Src(uj.Body)), " ")
+	cidr := "net.ParseCIDR(string($0[1:len($0) - 1]))"
 	fact("ipNetJSONIsCIDRStringKeepingHostBits",
-		strings.Join(strings.Fields(nt.Src(mj.Body)), " ") == "{ return json.Marshal(ipNet.ToIPNet().String()) }" &&
-			strings.Contains(usrc, "net.ParseCIDR(string(data[1 : len(data)-1]))") && strings.Contains(usrc, "netIPNet.IP = ip"),
+		effectContains(nt.Fset, mj, "return json.Marshal(recv.ToIPNet().String())") &&
+			effectContains(nt.Fset, uj, cidr+"#1.IP = "+cidr+"#0") && effectContains(nt.Fset, uj, "*recv = IPNet(*"+cidr+"#1)"),
 		"nets.IPNet: MarshalJSON = quoted net.IPNet.String(); UnmarshalJSON = net.ParseCIDR of the text between the quotes, IP = the unmasked address",
-		"MarshalJSON / UnmarshalJSON bodies changed")
+		"MarshalJSON / UnmarshalJSON normal forms changed")
 
 	// ---------------------------------------------------------------- k8s.go
 	k8, err := fg.ParseFile(repo, "pkg/api/k8s/k8s.go")
